@@ -2,6 +2,5 @@ CONSTANTS
   MaxToks = 3
   Big = TRUE
   NRand = 60000
-  Seed = 1
 INIT GenInit
 NEXT GenNext
